@@ -210,6 +210,7 @@ static long g_regions = 0, g_switch = 0, g_barriers = 0, g_conflict = 0, g_diff 
             g_sync_seen = 0, g_iso_regions = 0, g_watched_bytes = 0, g_dec_used = 0,
             g_maxteam = 0, g_dyn_chunks = 0, g_budget_hit = 0;
 static long cfg_switch_budget = 2000000;
+static long dl_yields;
 
 /* watched buffers for the current region */
 static unsigned char *wb[MAXW]; static size_t wn[MAXW]; static int nwb = 0;
@@ -301,6 +302,7 @@ static void run_team(void (*fn)(void *), void *data, unsigned nt) {
     if (T > MAXT) T = MAXT;
     if (T < 1) T = 1;
     g_regions++;
+    dl_yields = 0;
     if (T > g_maxteam) g_maxteam = T;
     if (T == 1 && !cfg_iso) {           /* fast path: one thread, shared memory */
         in_par = 1; team = 1; cur = 0; if (!dl_prearmed) dl_active = 0; dl_prearmed = 0;
@@ -379,8 +381,14 @@ void omp_unset_lock(void *l) { (void)l; }
 /* Work-sharing loops with dynamic / guided / runtime schedules: chunks are
  * handed out to whoever asks, and who asks next is the scheduler's decision
  * (each request is a yield point). */
+#define DYN_YIELD_CAP 256
 static void yield_here(void) {
     if (!in_par || team == 1) return;
+    /* Every chunk request is a point where another thread may get the next chunk.  The number of such
+     * hand-overs per region is capped: beyond the cap the requesting thread simply keeps taking chunks
+     * (a legal schedule), so that a long loop with a small chunk size costs O(cap) context switches and
+     * snapshot copies, not O(iterations). */
+    if (++dl_yields > DYN_YIELD_CAP) return;
     /* stay runnable; give the scheduler a chance to pick someone else */
     swapcontext(&tctx[cur], &sched_ctx);
 }
